@@ -1658,11 +1658,79 @@ Proof.
     assert (Pm : parent m y = y) by (unfold parent; now rewrite C1).
     assert (Hr : rank_succ yrank = S yrank).
     { specialize (RK y). unfold rank_succ. rewrite Nat.mod_small; lia. }
-    pose proof (nroots_wr n m y y (rank_succ yrank) L Hy) as NRW.
-    rewrite Pm, Nat.eqb_refl in NRW. cbn in NRW.
+    rewrite Hr in *.
+    pose proof (nroots_wr n m y y (S yrank) L Hy) as NRW.
+    rewrite Pm, Nat.eqb_refl in NRW. cbn [b2n] in NRW.
     intros z. pose proof (H z). pose proof (H y). cbn [pendb b2n] in *.
     destruct (Nat.eq_dec y z) as [<-|Hz];
       [rewrite rank_wr_eq by lia | rewrite rank_wr_neq by auto]; lia.
+Qed.
+
+Definition cinv (n : nat) (st : state) : Prop :=
+  forall x, rank (s_mem st) x + nroots n (s_mem st) + npend (s_thr st) <= n.
+
+Lemma step_acc_cnt n st t st' r a :
+  n < 255 -> finv n st -> cinv n st -> step_acc true st t = Some (st', r, a) -> cinv n st'.
+Proof.
+  intros Hn [M [T P]] C E. unfold step_acc in E.
+  destruct (nth_error (s_thr st) t) as [th|] eqn:Eth; [|discriminate].
+  destruct (start th (s_inv st)) as [[[[o ops'] pc0] inv']|] eqn:Es; [|discriminate].
+  destruct (pstep true (s_mem st) pc0) as [[[m' pc'] r'] a'] eqn:Ep.
+  inversion E; subst st' r' a'; clear E.
+  assert (Tth : tinv_f n (s_mem st) th).
+  { rewrite Forall_forall in T. apply T. eapply nth_error_In; eauto. }
+  pose proof (start_tinv_f n _ _ _ _ _ _ _ M Es Tth) as [T1 T2]. cbn [t_ops t_cur t_pc] in T1, T2.
+  destruct T2 as [W [K [A [B [HA [HN HQ]]]]]].
+  assert (RK : forall x, rank (s_mem st) x < 255) by (intros x; specialize (C x); lia).
+  assert (Pold : pend_th th = pendb pc0).
+  { unfold pend_th. apply start_spec in Es as [[Cu [_ [-> _]]]|[Cu [_ [-> _]]]]; rewrite Cu; auto.
+    destruct o; reflexivity. }
+  set (th' := match r with Some _ => mkT ops' None PIdle | None => mkT ops' (Some o) pc' end).
+  assert (Pnew : pend_th th' = pendb (match r with Some _ => PIdle | None => pc' end)).
+  { unfold th'. destruct r; reflexivity. }
+  pose proof (npend_upd _ t th th' Eth) as U1.
+  pose proof (npend_upd _ t th (mkT [] None PIdle) Eth) as U2.
+  change (pend_th (mkT [] None PIdle)) with false in U2. cbn [b2n] in U2.
+  set (others := npend (upd (s_thr st) t (mkT [] None PIdle))) in *.
+  rewrite Pold in U1, U2. rewrite Pnew in U1.
+  assert (H : forall x, rank (s_mem st) x + nroots n (s_mem st) + b2n (pendb pc0) <= n - others).
+  { intros x. specialize (C x). lia. }
+  pose proof (pstep_cnt n _ A B _ _ _ _ _ _ M RK HN HQ Ep H) as H'.
+  intros x. cbn [s_mem s_thr]. fold th'. specialize (H' x). specialize (C x). lia.
+Qed.
+
+Lemma filter_all {A} (f : A -> bool) l : (forall x, In x l -> f x = true) -> filter f l = l.
+Proof.
+  induction l as [|a l IH]; cbn; auto. intros H. rewrite (H a) by auto. f_equal. apply IH. auto.
+Qed.
+
+Lemma cinv_init n scripts : cinv n (init n scripts).
+Proof.
+  intros x. cbn [init s_mem s_thr]. rewrite rank_init.
+  assert (E1 : nroots n (init_mem n) = n).
+  { unfold nroots. rewrite filter_all, seq_length; auto.
+    intros z _. rewrite parent_init. apply Nat.eqb_refl. }
+  assert (E2 : npend (map (fun s => mkT s None PIdle) scripts) = 0).
+  { unfold npend. induction scripts; cbn; auto. }
+  lia.
+Qed.
+
+Lemma no_wrap_from n sched : n < 255 ->
+  forall st, finv n st -> cinv n st -> no_wrap true st sched.
+Proof.
+  intros Hn. induction sched as [|t s IH]; intros st F C; cbn; auto.
+  unfold step. destruct (step_acc true st t) as [[[st' r] a]|] eqn:E; auto.
+  assert (RK : forall x, rank (s_mem st) x < 255) by (intros x; specialize (C x); lia).
+  split; auto. apply IH.
+  - eapply step_acc_full; eauto.
+  - eapply step_acc_cnt; eauto.
+Qed.
+
+(** With fewer than 255 nodes the hypothesis [no_wrap] of the theorems below always holds. *)
+Theorem no_wrap_small n scripts sched :
+  scripts_wf n scripts -> n < 255 -> no_wrap true (init n scripts) sched.
+Proof.
+  intros W Hn. apply (no_wrap_from n); auto; [now apply finv_init | apply cinv_init].
 Qed.
 
 (** * The executable class table agrees with the closure *)
@@ -1875,3 +1943,81 @@ Proof.
   split; [apply no_wrapb_sound; vm_compute; reflexivity|].
   split; [repeat constructor | vm_compute; reflexivity].
 Qed.
+
+(** * The unbounded theorems for fewer than 255 nodes, without the [no_wrap] hypothesis *)
+Theorem uf_acyclic_small n scripts sched :
+  scripts_wf n scripts -> n < 255 ->
+  let m := s_mem (fst (run_fixed n scripts sched)) in
+  (forall x, x < n -> parent m x < n /\
+     (parent m x <> x -> lexlt (rank m x) x (rank m (parent m x)) (parent m x))) /\
+  (forall x k, Nat.iter (S k) (parent m) x = x -> parent m x = x) /\
+  (forall x, exists k, k <= n /\ is_root m (Nat.iter k (parent m) x)).
+Proof. intros W Hn. apply uf_acyclic; auto. now apply no_wrap_small. Qed.
+
+Theorem uf_ranks_monotone_small n scripts sched t st' rs :
+  scripts_wf n scripts -> n < 255 ->
+  let st := fst (run_fixed n scripts sched) in
+  step true st t = Some (st', rs) ->
+  forall x, rank (s_mem st) x <= rank (s_mem st') x /\
+            (parent (s_mem st) x <> x ->
+             parent (s_mem st') x <> x /\ rank (s_mem st') x = rank (s_mem st) x).
+Proof. intros W Hn. apply uf_ranks_monotone; auto. now apply no_wrap_small. Qed.
+
+Theorem uf_union_returns_small n scripts sched t st' rs :
+  scripts_wf n scripts -> n < 255 ->
+  let st := fst (run_fixed n scripts sched) in
+  step true st t = Some (st', rs) -> In RUnion rs ->
+  exists x y, cur_op st t = Some (OUnion x y) /\ sameroot (s_mem st') x y.
+Proof. intros W Hn. apply uf_union_returns; auto. now apply no_wrap_small. Qed.
+
+Theorem uf_classes_never_split_small n scripts sched sched' x y :
+  scripts_wf n scripts -> n < 255 ->
+  sameroot (s_mem (fst (run_fixed n scripts sched))) x y ->
+  sameroot (s_mem (fst (run_fixed n scripts (sched ++ sched')))) x y.
+Proof. intros W Hn. apply uf_classes_never_split; auto. now apply no_wrap_small. Qed.
+
+Theorem uf_union_complete_small n scripts sched :
+  scripts_wf n scripts -> n < 255 ->
+  let st := fst (run_fixed n scripts sched) in
+  quiescent st = true ->
+  forall x y, x < n -> y < n ->
+    (sameroot (s_mem st) x y <-> closure n (all_unions scripts) x y) /\
+    (root (s_mem st) x = root (s_mem st) y <-> closure n (all_unions scripts) x y).
+Proof.
+  intros W Hn st Q x y Hx Hy. pose proof (no_wrap_small n scripts sched W Hn) as NW. split.
+  - now apply uf_union_complete.
+  - now apply uf_union_complete_root.
+Qed.
+
+(** Non-vacuity of the hypotheses of the unbounded theorems: well-formed scripts over 3 nodes, a
+    schedule after which all threads have finished, a step that returns from a union. *)
+Example ex_hypotheses :
+  let scripts := [[OUnion 0 1; OUnion 1 2; OFind 1]; [OUnion 2 1; OFind 2]; [OSame 1 2]] in
+  scripts_wf 3 scripts /\ 3 < 255 /\
+  quiescent (fst (run_fixed 3 scripts bad_sched_split)) = true /\
+  (exists st' , step true (fst (run_fixed 3 scripts [0;0;0;0;0;0;0])) 0 = Some (st', [RUnion])) /\
+  (exists st' , step false (fst (run 3 scripts (bad_sched_split))) 2 = None /\
+                step false (fst (run 3 scripts (firstn 33 bad_sched_split))) 2 = Some (st', [RSame false])).
+Proof.
+  cbv zeta. split; [repeat constructor|]. split; [lia|]. split; [vm_compute; reflexivity|].
+  split; eexists; vm_compute; [reflexivity | split; reflexivity].
+Qed.
+
+(* NOT PROVED:
+   - The property C29 as stated does not hold of the code as it is (model switch fx = false):
+     see uf_acyclic_refuted, uf_union_complete_refuted, uf_linearizable_bounded_refuted above
+     (the interleaving was replayed by hand against the real UnionFind.h with the same final
+     memory 1:0 1:1 2:1). uf_acyclic / uf_union_* are therefore proved for the repaired linking
+     only (fx = true: updateRoot(x, xrank, y, xrank) in unionNodes); uf_sound and
+     sameset_true_correct hold for both.
+   - sameSet answering [false] ("correct at some instant during the call") has no unbounded
+     proof, for either variant; it is covered only by the bounded exhaustive theorems
+     uf_linearizable_bounded(_2) through the monitor. Likewise "find returns the root its
+     argument has at the instant of the return" is unbounded only in the weaker form
+     [sameroot x z /\ is_root z] inside step_acc_full (not exported as a theorem).
+   - Ranks: the theorems are stated for runs with n < 255 nodes (no_wrap_small) or under the
+     explicit run hypothesis [no_wrap]; the sharper fact "rank r needs 2^r nodes", which would
+     give n < 2^255, is not proved.
+   - Concurrent makeNode (PiggyList growth) is outside the model.
+   - Termination (lock-freedom) of the retry loops is not addressed; the model steps are total
+     but a schedule can starve a thread. *)
